@@ -478,6 +478,62 @@ async def ble_handle_part(ctx) -> None:
         ctx.count("ble_handle_lookups_checked", len(asks))
 
 
+async def ble_notify_part(ctx) -> None:
+    """BLE events while connected: the accessory pokes the controller with an (empty) GATT notification on a subscribed
+    characteristic's handle, the controller reads the value and tells the listeners. Notifications for SEVERAL characteristics
+    arrive while the first read is still in flight (a scene switching three lights): every one of them reaches every listener
+    (a storm on ONE characteristic may be coalesced - the read returns the latest value anyway - but not across characteristics)."""
+    from vf import sim_ble_acc
+
+    for k in range(ctx.pick(6, 80)):
+        if not ctx.mine(k):
+            continue
+        rng = ctx.grng("C12.ble-notify", k)
+        w = sim_ble_acc.BleWorld(rng)
+        replay = {"t": "ble-notify", "k": k}
+        try:
+            got_a, got_b = [], []
+            w.pairing.dispatcher_connect(lambda ev: got_a.append(ev))
+            w.pairing.dispatcher_connect(lambda ev: got_b.append(ev))
+            p = w.pairing
+            try:
+                await asyncio.wait_for(p.get_characteristics([(1, 11)]), 120)
+                iids = rng.sample([10, 11, 13, 14], rng.choice([2, 3, 3, 4]))
+                iids = [i for i in iids if "ev" in w.accessory.chars[i][3] or True]
+                async with p._operation_lock:
+                    for iid in iids:
+                        await p._async_start_notify(iid)
+            except Exception as ex:  # noqa: BLE001
+                ctx.mark_inconclusive(f"C12 BLE notify slice: set-up failed: {ex!r}")
+                return
+            client = w.accessory.clients[-1]
+            ctx.case("ble-notify", k, tuple(iids), sample={"transport": "ble", "notified_characteristics": iids}, kind="ble-notify")
+            got_a.clear()
+            got_b.clear()
+            gate = asyncio.Event()
+            client.gate = gate
+            order = list(iids)
+            rng.shuffle(order)
+            for iid in order:
+                client.notify_callbacks[iid](iid, b"")
+                for _ in range(rng.choice([0, 0, 1, 3])):
+                    await asyncio.sleep(0)
+            for _ in range(10):
+                await asyncio.sleep(0)
+            gate.set()
+            for _ in range(600):
+                await asyncio.sleep(0)
+            for name, got in (("first listener", got_a), ("second listener", got_b)):
+                seen = [key for ev in got for key in ev]
+                missing = [(1, i) for i in iids if (1, i) not in seen]
+                if missing or len(seen) != len(set(seen)):
+                    ctx.violation("event-lost" if missing else "event-duplicated", f"BLE: GATT notifications for characteristics {order} while the first read was in flight; {name} saw {seen} (missing {missing})", replay)
+                    return
+            ctx.count("ble_notifications_delivered", len(iids))
+        finally:
+            await w.close()
+
+
 async def catch_up_part(ctx) -> None:
     """Events while NOT connected (BLE accessories, sleepy devices) announce themselves through the state number in the
     advertisement: every advertisement whose state number DIFFERS from the last one seen - it is a wrapping 16-bit counter,
@@ -547,6 +603,7 @@ def run(ctx) -> None:
         await sim_coap.c12_part(ctx)
         await ble_handle_part(ctx)
         await catch_up_part(ctx)
+        await ble_notify_part(ctx)
 
     vloop.run(main())
 
@@ -559,6 +616,10 @@ def replay(ctx, d) -> None:
 
         ctx.shard, ctx.nshards = 0, 1
         vloop.run(sim_coap.c12_part(ctx))
+        return
+    if d.get("t") == "ble-notify":
+        ctx.shard, ctx.nshards = 0, 1
+        vloop.run(ble_notify_part(ctx))
         return
     if d.get("t") == "catch-up":
         ctx.shard, ctx.nshards = 0, 1
